@@ -16,6 +16,7 @@ def showErr : Err → String
   | .fuel => "err:fuel"
   | .indexError => "err:IndexError"
   | .dpError => "err:dp"
+  | .encodeError => "err:UnicodeEncodeError"
 
 def showExcept {α} (f : α → String) : Except Err α → String
   | .ok a => f a
@@ -122,6 +123,38 @@ def handle : List SExp → String
       match (levenshteinAutomaton w k p).toDfa with
       | none => "err:fuel"
       | some d => showList (fun u => showExcept (showOpt showWord) (d.nextValidString (levChain w k) u)) us
+    | _, _, _, _ => "bad-op"
+  | [.atom "utf8", us] =>
+    -- `u.encode("utf-8")` for every word of `us`
+    match words? us with
+    | some us => showList (fun u => showExcept showNatList (utf8Encode u)) us
+    | none => "bad-op"
+  | [.atom "cursor-bytes", lex, terms] =>
+    -- `cur.find(term); cur.text()` over the byte-ordered dictionary, for every term of `terms`
+    match words? lex, words? terms with
+    | some lex, some terms =>
+      showList (fun t => showExcept (showOpt showWord) (cursorFindBytes lex t)) terms
+    | _, _ => "bad-op"
+  | [.atom "fne", w, k, p, us, labels] =>
+    -- `dfa.find_next_edge(state, label)` in the state reached on each probe `u` (following
+    -- `next_state` from the start; `None` stays `None`), for `label = None` and every given label
+    match word? w, k.nat?, p.nat?, words? us, labels.natList? with
+    | some w, some k, some p, some us, some labels =>
+      match (levenshteinAutomaton w k p).toDfa with
+      | none => "err:fuel"
+      | some d =>
+        showList (fun u =>
+          let st := u.foldl (fun s c => d.nextState s c) (some d.initial)
+          showList (fun l => showOpt toString (d.findNextEdge st l)) (none :: labels.map some)) us
+    | _, _, _, _, _ => "bad-op"
+  | [.atom "tw-seg-bytes-grid", lexs, w, ds, ps] =>
+    -- as tw-seg-grid with the byte-level cursor
+    match SExp.listOf? words? lexs, word? w, ds.natList?, ps.natList? with
+    | some lexs, some w, some ds, some ps =>
+      showList id (ds.flatMap fun d => ps.map fun p =>
+        match (levenshteinAutomaton w d p).toDfa with
+        | none => "err:fuel"
+        | some dfa => showList (fun lex => showExcept showWords (findMatchesBytes (dfa.nextValidString (levChain w d)) lex)) lexs)
     | _, _, _, _ => "bad-op"
   | [.atom "tw-seg", lex, w, d, p] =>
     match words? lex, word? w, d.nat?, p.nat? with
